@@ -912,7 +912,13 @@ class StateEngine(object):
         StateEngine has failed and been restarted and we are handling a
         redelivered message.
         """
-        if self.executions.get(execution_arn) == None:
+        """
+        Test for membership rather than using get(): for the Redis backed store
+        get() returns a (possibly empty) RedisDict and never None, so metadata
+        that has expired (an execution that outlives execution_ttl) or has been
+        lost would never be re-created.
+        """
+        if execution_arn not in self.executions:
             self.logger.warning(
                 "StateEngine: update_execution_history: Execution {} does not "
                 "exist, probably due to StateEngine restart. Some history "
@@ -935,6 +941,7 @@ class StateEngine(object):
                 "status": "RUNNING",
                 "stopDate": None,
             }
+            self.executions.set_ttl(execution_arn, self.execution_ttl)
             self.execution_history[execution_arn] = []
 
     def acknowledge_event_list(self, event_ids):
